@@ -23,7 +23,9 @@ class C04(Prop):
                     'hashlib by every digest compared in this run',
                     'btcmodel executable = compiled Model.* (Lean compiler)']
     assumptions = ['transaction fields lie in their wire ranges (Spec.Sighash.FieldsWF); 0 <= amount < 2^63; '
-                   'script code shorter than 2^64 bytes']
+                   'script code shorter than 2^64 bytes',
+                   'input index >= 0 (for -|vin| <= inIdx < 0 Python silently uses vin[inIdx] / vout[inIdx] counted from '
+                   'the end; this wrap-around is not modelled: declared exclusion, the driver answers bad-args)']
     rule = ('sampled transactions (1..4 inputs, 0..4 outputs, +-witness, both classes) with nLockTime / nSequence at '
             '{0, 2^31-1, 2^31, 2^32-1} and random x script codes of length {0, 0xfc, 0xfd, 300, small, mined} x amounts '
             '{0, 1, 2^63-1, random} x every valid index x ALL 256 hash-type bytes; every standard template shape (P2WPKH/'
@@ -121,6 +123,19 @@ class C04(Prop):
                             yield mk('c04.bip143', cls, G.rbytes(rng, ln).hex(), text, idx,
                                      rng.choice(G.HT_STANDARD), am, tag='edges')
                     n += 1
+            # outcomes beside the digest: non-existing index (IndexError), amount=None and amounts outside
+            # [0, 2^63) (negative ones pack with '<q'; outside int64: struct.error)
+            sc = self.gen_script_code(rng, False)
+            cls = rng.choice('im')
+            nin = len(t['vin'])
+            for ht in (1, 3, 0x82):
+                yield mk('c04.bip143', cls, sc.hex(), text, nin, ht, rng.choice((0, 1, I64MAX)), tag='idx-oob')
+            yield mk('c04.bip143', cls, sc.hex(), text, nin + 1, 1, 0, tag='idx-oob')
+            idx = rng.randrange(nin)
+            for am in ('none', -1, -2, -(1 << 63), -(1 << 63) + 1, -rng.randrange(1, 1 << 63), 1 << 63, -(1 << 63) - 1,
+                       (1 << 64) - 1):
+                yield mk('c04.bip143', cls, sc.hex(), text, idx, rng.choice(G.HT_STANDARD), am, tag='amount-range')
+            yield mk('c04.bip143', cls, sc.hex(), text, nin, 1, 'none', tag='amount-range')
 
     def model_line(self, c):
         if c['op'] == 'c04.hist':
@@ -136,7 +151,7 @@ class C04(Prop):
         before = G.snapshot(tx)
         try:
             out = G.guarded(lambda: bytes(S.SignatureHash(
-                S.CScript(bytes.fromhex(sc)), tx, int(idx), int(ht), amount=int(amount),
+                S.CScript(bytes.fromhex(sc)), tx, int(idx), int(ht), amount=(None if amount == 'none' else int(amount)),
                 sigversion=S.SIGVERSION_WITNESS_V0)).hex())
         finally:
             after = G.snapshot(tx)
@@ -167,7 +182,7 @@ class C04(Prop):
         for h2 in (1,):
             if str(h2) != ht:
                 yield mk(op, cls, sc, text, idx, h2, amount, tag=tag)
-        if amount != '0':
+        if amount not in ('0', 'none'):
             yield mk(op, cls, sc, text, idx, ht, 0, tag=tag)
         if cls == 'm':
             yield mk(op, 'i', sc, text, idx, ht, amount, tag=tag)
